@@ -310,8 +310,11 @@ def probe_storage():
         if all(rejects(lambda op=op: op('')) is True for op in ops):
             out['g_empty'] = 'true'
         chars = ['.', '/', '\\', os.path.sep]
-        if all(rejects(lambda op=op, c=c: op('a' + c + 'b')) is True and rejects(lambda op=op, c=c: op(c)) is True
-               for op in ops[:2] for c in chars):
+        # ... and nothing else is forbidden: every other character is accepted in a key
+        fine = 'aZ09_- +=@:,;()[]{}~!#$%^&\u00e9\u5b9f\u0416'
+        if (all(rejects(lambda op=op, c=c: op('a' + c + 'b')) is True and rejects(lambda op=op, c=c: op(c)) is True
+                for op in ops[:2] for c in chars)
+                and all(rejects(lambda c=c: st.exists('a' + c + 'b')) is False for c in fine)):
             out['g_chars'] = [ord(c) for c in chars]
         os.makedirs(os.path.join(sdir, 'k1', 'deep'))
         os.symlink(os.path.join(sdir, 'k1', 'deep'), os.path.join(sdir, 'lnk_in'))
